@@ -3,14 +3,12 @@ import MythVerif.Proofs.WsQueueTsoTac
 namespace MythVerif.WsqTso
 open MythVerif.Wsq
 
-set_option maxHeartbeats 4000000 in
 theorem t_kq0 (s s' : St) (p : Pid) : Inv s → s.tpc p = .kq0 → stepT s p = some s' → Inv s' := by
   intro h heq hs
   simp only [stepT, heq] at hs
   simp at hs; subst hs
   tso_fastT h p []
 
-set_option maxHeartbeats 4000000 in
 theorem t_kq1 (s s' : St) (p : Pid) (t) : Inv s → s.tpc p = .kq1 t → stepT s p = some s' → Inv s' := by
   intro h heq hs
   simp only [stepT, heq] at hs
@@ -18,14 +16,12 @@ theorem t_kq1 (s s' : St) (p : Pid) (t) : Inv s → s.tpc p = .kq1 t → stepT s
   all_goals (simp at hs; subst hs)
   all_goals tso_fastT h p []
 
-set_option maxHeartbeats 4000000 in
 theorem t_pk1 (s s' : St) (p : Pid) : Inv s → s.tpc p = .pk1 → stepT s p = some s' → Inv s' := by
   intro h heq hs
   simp only [stepT, heq] at hs
   simp at hs; subst hs
   tso_fastT h p []
 
-set_option maxHeartbeats 4000000 in
 theorem t_pk2 (s s' : St) (p : Pid) (b) : Inv s → s.tpc p = .pk2 b → stepT s p = some s' → Inv s' := by
   intro h heq hs
   simp only [stepT, heq] at hs
@@ -33,7 +29,6 @@ theorem t_pk2 (s s' : St) (p : Pid) (b) : Inv s → s.tpc p = .pk2 b → stepT s
   all_goals (simp at hs; subst hs)
   all_goals tso_fastT h p []
 
-set_option maxHeartbeats 4000000 in
 theorem t_pk3 (s s' : St) (p : Pid) (b) : Inv s → s.tpc p = .pk3 b → stepT s p = some s' → Inv s' := by
   intro h heq hs
   simp only [stepT, heq] at hs
